@@ -10,6 +10,17 @@ def pfilter(e, v2):
     return v2 is not None and getattr(v2, "tag", None) is None
 
 
+class LockedFilter:
+    """a filter callable that owns something no pickler can serialise (a running generator; think of a database handle):
+    using it for a query must not make the GRAPH unpicklable"""
+
+    def __init__(self):
+        self.handle = (x for x in ())
+
+    def __call__(self, e, v2):
+        return True
+
+
 def canon_walk(root):
     """every edgegraph object reachable from root, in a deterministic order"""
     from edgegraph.structure.base import BaseObject
